@@ -2,6 +2,27 @@
    Only property theorems here; each is closed by [exact] of a lemma of Proofs/. *)
 Require Import Verif.Model.Base Verif.Model.Mode Verif.Model.Writers Verif.Model.Tree.
 Require Import Verif.Proofs.ModeP Verif.Proofs.TreeP.
+Require Verif.Gen.Decisions.
+Require Import Verif.Model.DecisionRef.
+
+(* ---- the source against the model: SetJSONMode, SetColorMode and PrintCtx.setentry as they are
+   in /repo now (translated on every run, Gen/Decisions.v) compute the model's functions ---- *)
+Theorem C11_gen_set_json_mode : forall useJSON useColor (b : list bool),
+  Decisions.set_json_mode useJSON useColor b = set_json_mode_ref useJSON useColor b.
+Proof. exact gen_set_json_mode. Qed.
+Print Assumptions C11_gen_set_json_mode.
+
+Theorem C11_gen_set_color_mode : forall useJSON useColor (b : list bool),
+  Decisions.set_color_mode useJSON useColor b = set_color_mode_ref useJSON useColor b.
+Proof. exact gen_set_color_mode. Qed.
+Print Assumptions C11_gen_set_color_mode.
+
+(* the two mode bits of the pooled print context after setentry *)
+Theorem C11_gen_pc_setentry : forall useJSON useColor,
+  Decisions.pc_setentry useJSON useColor = pc_setentry_ref useJSON useColor.
+Proof. exact gen_pc_setentry. Qed.
+Print Assumptions C11_gen_pc_setentry.
+
 
 (* For every list of mode calls (any number of boolean arguments each) applied to
    a logger, the flags follow the three-state machine of the statement and the
